@@ -23,6 +23,9 @@ UP_SRCS = ["events/events_network_selectstats.c", "datastruct/timerqueue.c", "ne
            "network/network_connect.c", "netbuf/netbuf_read.c", "netbuf/netbuf_write.c", "http/http.c", "util/sock.c",
            "util/sock_util.c", "util/asprintf.c", "util/humansize.c", "util/monoclock.c", "util/warnp.c",
            "aws/aws_sign.c", "alg/sha256.c", "util/hexify.c", "util/insecure_memzero.c"]
+# black-box fallback of h_allocfail.c: the files it #includes white-box, compiled separately
+EV_BB_SRCS = ["datastruct/elasticarray.c", "datastruct/ptrheap.c", "events/events.c", "events/events_immediate.c",
+              "events/events_timer.c", "events/events_network.c"]
 KCAP = 70          # above this many allocations the k's are sampled (all k <= 24, then every third)
 
 
@@ -360,7 +363,7 @@ def make_components(ctx):
         "events", "h_allocfail.c", EV_SRCS, ["af"], None, nontrivial=lambda c: c[0].startswith("fail"),
         rule="events: base sequences over ptrheap init/add/getmin/deletemin and events_immediate/timer/network register/cancel, "
              "clock steps and events_run (poll reports nothing ready, harness clock) x {no fault, failat k, failfrom k : every k}",
-        monitor_args=["afmon"], ldflags=[WRAP + ",--wrap=poll"], **common)
+        monitor_args=["afmon"], ldflags=[WRAP + ",--wrap=poll"], bb_ok=True, bb_srcs=EV_BB_SRCS, bb_fresh=True, **common)
     up = vlib.Component(
         "upper", "h_af_upper.c", UP_SRCS, ["upecho"], None, nontrivial=lambda c: c[0].startswith("fail"),
         rule="upper (OBSERVED BY FAULT ENUMERATION, NOT PROVED - the completion paths have no Lean failure model; the start / "
